@@ -283,7 +283,7 @@ def _anonymize_value(raw_val, lookup, reserved_words, salt):
         old_salt_size = len(val.split("$")[2])
         # Not salting sensitive data, using static salt here to more easily
         # identify anonymized lines
-        anon_val = md5_crypt.using(salt="0" * old_salt_size).hash(anon_val)
+        anon_val = md5_crypt.using(salt="0" * min(old_salt_size, 8)).hash(anon_val)
 
     if item_format == _sensitive_item_formats.sha512:
         # Hash anon_val w/standard rounds=5000 to omit rounds parameter from hash output
